@@ -43,6 +43,16 @@ def _op(p):
     return p.rsplit("/", 2)[1]
 
 
+def _opk(spec, path, vectorize):
+    """operator identity of a variable path: the operator name, or (vectorised) its structure - vectorisation merges
+    nodes whose operators are structurally identical even when the operator templates carry different names"""
+    o = _op(path)
+    if not vectorize or o not in spec["ops"]:
+        return o
+    od = spec["ops"][o]
+    return str((tuple(map(str, od["eqs"])), tuple((v[0], v[1]) for v in od["vars"]), od.get("out")))
+
+
 def _merged_node_key(spec, node_path, vectorize):
     """Nodes that vectorisation merges into one IR node share this key (same operator structure)."""
     if not vectorize or node_path.startswith("__input"):
@@ -76,8 +86,8 @@ def two_source_vars_of_one_ir_node_into_one_target(case):
     vec = bool(case.get("cfg", {}).get("vectorize"))
     by_t = {}
     for s, t, e in _abs_edges(spec):
-        tk = (_merged_node_key(spec, _node(t), vec), _op(t), _var(t)) if vec else t
-        by_t.setdefault(tk, set()).add((_merged_node_key(spec, _node(s), vec), _op(s), _var(s)))
+        tk = (_merged_node_key(spec, _node(t), vec), _opk(spec, t, vec), _var(t)) if vec else t
+        by_t.setdefault(tk, set()).add((_merged_node_key(spec, _node(s), vec), _opk(spec, s, vec), _var(s)))
     for tk, srcs in by_t.items():
         per_node = {}
         for n, o, v in srcs:
@@ -217,8 +227,8 @@ def vectorized_fan_in_to_single_unit(case):
     groups = _groups(spec, True)
     by = {}
     for s, t, e in _case_edges(case):
-        k = (_merged_node_key(spec, _node(s), True), _op(s), _var(s), _merged_node_key(spec, _node(t), True), _op(t),
-             _var(t), e.get("d") is not None)
+        k = (_merged_node_key(spec, _node(s), True), _opk(spec, s, True), _var(s),
+             _merged_node_key(spec, _node(t), True), _opk(spec, t, True), _var(t), e.get("d") is not None)
         by.setdefault(k, []).append((_node(s), _node(t)))
     for k, lst in by.items():
         tgt_units = {t for _, t in lst}
@@ -267,10 +277,11 @@ def vectorized_wired_input_with_edges_to_some_units(case):
     groups = _groups(spec, True)
     tgt = {}
     for s, t, e in _case_edges(case):
-        tgt.setdefault((_merged_node_key(spec, _node(t), True), _op(t), _var(t)), set()).add(_node(t))
+        tgt.setdefault((_merged_node_key(spec, _node(t), True), _opk(spec, t, True), _var(t)), set()).add(_node(t))
+    wired_k = {(_merged_node_key(spec, _node(w), True), _opk(spec, w, True), _var(w)) for w in wired}
     for (gk, o, v), units in tgt.items():
         paths = groups[gk]
-        if len(units) < len(paths) and any(f"{p}/{o}/{v}" in wired for p in paths):
+        if len(units) < len(paths) and (gk, o, v) in wired_k:
             return True
     return False
 
@@ -285,7 +296,7 @@ def vectorized_multi_source_input_with_unconnected_units(case):
     groups = _groups(spec, True)
     tgt = {}
     for s, t, e in _case_edges(case):
-        k = (_merged_node_key(spec, _node(t), True), _op(t), _var(t))
+        k = (_merged_node_key(spec, _node(t), True), _opk(spec, t, True), _var(t))
         d = tgt.setdefault(k, {"units": set(), "src": set()})
         d["units"].add(_node(t))
         d["src"].add(_merged_node_key(spec, _node(s), True))
@@ -302,8 +313,10 @@ def vectorized_multi_source_input_with_unconnected_units(case):
 def repair_case(case, ctx):
     import copy
     active = set(ctx.active_findings)
+    copied = False
     if "F-01c" in active and "spec" in case and two_source_vars_of_one_ir_node_into_one_target(case):
         case = copy.deepcopy(case)
+        copied = True
         spec = case["spec"]
         vec = bool(case.get("cfg", {}).get("vectorize"))
         seen = {}
@@ -311,14 +324,43 @@ def repair_case(case, ctx):
         for e in spec.get("edges", []):
             pre = (e.get("scope") + "/") if e.get("scope") else ""
             s, t = pre + e["s"], pre + e["t"]
-            tk = (_merged_node_key(spec, _node(t), vec), _op(t), _var(t)) if vec else t
+            tk = (_merged_node_key(spec, _node(t), vec), _opk(spec, t, vec), _var(t)) if vec else t
             sn = _merged_node_key(spec, _node(s), vec)
-            sv = (_op(s), _var(s))
+            sv = (_opk(spec, s, vec), _var(s))
             if seen.setdefault((tk, sn), sv) != sv:
                 continue
             keep.append(e)
         spec["edges"] = keep
         case.setdefault("_repaired", []).append("F-01c")
+    if "F-09b" in active and "spec" in case and same_pair_connected_twice_with_delay(case):
+        if not copied:
+            case = copy.deepcopy(case)
+        spec = case["spec"]
+        seen, keep = set(), []
+        for e in spec.get("edges", []):
+            pre = (e.get("scope") + "/") if e.get("scope") else ""
+            k = (pre + e["s"], pre + e["t"])
+            if k in seen:
+                continue
+            seen.add(k)
+            keep.append(e)
+        spec["edges"] = keep
+        case.setdefault("_repaired", []).append("F-09b")
+    if "F-09e" in active and "spec" in case and two_delayed_source_variables_in_one_operator(case):
+        if not copied:
+            case = copy.deepcopy(case)
+        spec = case["spec"]
+        vec = bool(case.get("cfg", {}).get("vectorize"))
+        first = {}
+        for e in spec.get("edges", []):
+            if e.get("d") is None:
+                continue
+            pre = (e.get("scope") + "/") if e.get("scope") else ""
+            s_ = pre + e["s"]
+            k = (_merged_node_key(spec, _node(s_), vec), _opk(spec, s_, vec))
+            if first.setdefault(k, _var(s_)) != _var(s_):
+                e["d"] = None
+        case.setdefault("_repaired", []).append("F-09e")
     return case
 
 
@@ -345,3 +387,31 @@ def rhs_cancels_to_constant(case):
         if _has_var(ast) and _is_constant_expr(ast):
             return True
     return False
+
+
+def _delayed(e):
+    return e.get("d") is not None
+
+
+@predicate("F-09b")
+def same_pair_connected_twice_with_delay(case):
+    """>=2 edges between the same source variable and the same target variable of which at least one is delayed"""
+    spec = case["spec"]
+    vec = bool(case.get("cfg", {}).get("vectorize"))
+    pairs = {}
+    for s, t, e in _abs_edges(spec):
+        pairs.setdefault((s, t), []).append(e)
+    return any(len(v) >= 2 and any(_delayed(e) for e in v) for v in pairs.values())
+
+
+@predicate("F-09e")
+def two_delayed_source_variables_in_one_operator(case):
+    """one operator (of one IR node) has >=2 different variables that are sources of delayed edges: the generated
+    buffer variables collide (PyRatesException 'Buffer variable name collision')"""
+    spec = case["spec"]
+    vec = bool(case.get("cfg", {}).get("vectorize"))
+    by_op = {}
+    for s, t, e in _abs_edges(spec):
+        if _delayed(e):
+            by_op.setdefault((_merged_node_key(spec, _node(s), vec), _opk(spec, s, vec)), set()).add(_var(s))
+    return any(len(v) >= 2 for v in by_op.values())
